@@ -246,6 +246,7 @@ class FirstOrderFD(BaseGradientApproximator):
         else:
             upper_bounds = self._design_space.get_upper_bounds()
 
+        upper_bounds = upper_bounds[input_indices]
         steps = where(
             input_perturbations[input_indices, range(n_indices)] >= upper_bounds,
             -step,
